@@ -120,6 +120,58 @@ func c15schema() {
 	add(&pspec{typ: "RollingFile", class: "logger", layout: "optional", attrs: append(append([]aspec{}, lb...), aspec{"fileDir", "dir", "./logs", false, "FileDir"}, aspec{"fileName", "fname", "app.log", false, "FileName"},
 		aspec{"separate", "bool", "false", false, "Separate"}, aspec{"rotation", "rotation", "", true, "Rotation"}, aspec{"maxAge", "int32", "168", false, "MaxAge"}, aspec{"async", "bool", "false", false, "AsyncWrite"},
 		aspec{"bufferSize", "bufsize", "10000", false, "BufferSize"}, aspec{"bufferFullPolicy", "policy", "Discard", false, "BufferFullPolicy"})})
+	c15syncWithTags()
+}
+
+// declared defaults are read from the struct tags of the real plugin types, so that the oracle
+// follows the declaration ("else its declared default") instead of a transcription of it
+func c15syncWithTags() {
+	types := map[string]reflect.Type{
+		"appender:Discard": reflect.TypeOf(log.DiscardAppender{}), "appender:Console": reflect.TypeOf(log.ConsoleAppender{}), "appender:File": reflect.TypeOf(log.FileAppender{}),
+		"appender:RollingFile": reflect.TypeOf(log.RollingFileAppender{}), "appender:VRec": reflect.TypeOf(VRec{}), "appender:VProbe": reflect.TypeOf(VProbe{}),
+		"logger:Logger": reflect.TypeOf(log.SyncLogger{}), "logger:AsyncLogger": reflect.TypeOf(log.AsyncLogger{}), "logger:Discard": reflect.TypeOf(log.DiscardLogger{}),
+		"logger:Console": reflect.TypeOf(log.ConsoleLogger{}), "logger:File": reflect.TypeOf(log.FileLogger{}), "logger:RollingFile": reflect.TypeOf(log.RollingFileLogger{}),
+	}
+	var scan func(t reflect.Type, out map[string]string, req map[string]bool)
+	scan = func(t reflect.Type, out map[string]string, req map[string]bool) {
+		for i := 0; i < t.NumField(); i++ {
+			f := t.Field(i)
+			if tag, ok := f.Tag.Lookup("PluginAttribute"); ok {
+				parts := strings.Split(tag, ",")
+				name := parts[0]
+				hasDef := false
+				for _, p := range parts[1:] {
+					if strings.HasPrefix(p, "default=") {
+						out[name] = strings.TrimPrefix(p, "default=")
+						hasDef = true
+					}
+				}
+				if !hasDef {
+					req[name] = true
+				}
+				continue
+			}
+			if f.Anonymous && f.Type.Kind() == reflect.Struct {
+				scan(f.Type, out, req)
+			}
+		}
+	}
+	for key, t := range types {
+		sp := c15specs[key]
+		if sp == nil {
+			continue
+		}
+		defs, req := map[string]string{}, map[string]bool{}
+		scan(t, defs, req)
+		for i := range sp.attrs {
+			a := &sp.attrs[i]
+			if d, ok := defs[a.name]; ok {
+				a.def, a.req = d, false
+			} else if req[a.name] {
+				a.req = true
+			}
+		}
+	}
 }
 
 // ---- abstract configuration ----
